@@ -229,7 +229,7 @@ def classify_crash(tb_text):
     exc_line = tb_text.strip().splitlines()[-1]
     exc_type = exc_line.split(":")[0].strip()
     if exc_type.endswith("ShardTimeout"):
-        frames = [f for f in frames if f[1] != "_on_alarm"]
+        frames = [f for f in frames if f[1] not in ("_on_alarm", "_on_cpu_limit")]
         sa = [f for f in frames if "/repo/lib/sqlalchemy" in f[0]]
         if not sa:
             return None
